@@ -458,7 +458,8 @@ impl BitDepth {
     pub fn parse_integer_sample(self, sample: i32) -> f32 {
         match self {
             Self::IntegerSample { bits_per_sample } => {
-                let div = (1i32 << bits_per_sample) - 1;
+                // `bits_per_sample` may be 31; `1i32 << 31` is negative.
+                let div = (1u32 << bits_per_sample) - 1;
                 sample as f32 / div as f32
             }
             Self::FloatSample {
